@@ -11,6 +11,7 @@ junit = "/verif/build/junit_%d.xml" % os.getpid()
 cmd = ["/venv/bin/python", "-m", "pytest", "-q", "-p", "no:cacheprovider", "--timeout=900", "--continue-on-collection-errors",
        "--no-cov", "-n", "12", "--junitxml=" + junit] + extra
 env = dict(os.environ); env.pop("BOSCHRESEARCH_PYLIFE_VERIF", None)
+env["PYTHONPATH"] = os.path.join(os.path.abspath(repo), "src")   # the editable install points at /repo/src; make the given checkout win
 p = subprocess.run(cmd, cwd=repo, env=env, capture_output=True, text=True)
 print(p.stdout[-600:])
 passed, failed = set(), set()
